@@ -65,12 +65,12 @@ def _expected_path(wt, net, account, change, index):
     return [HARD + PURPOSE[wt], HARD + wu.coin_type(net), HARD + account, change, index]
 
 
-def _check_key(ctx, case, master, k, want_wt, want_account, want_change, want_index=None, private=True):
+def _check_key(ctx, case, master, k, want_wt, want_account, want_change, want_index=None, private=True, net=None):
     """Compare one WalletKey at address depth with the reference derivation."""
     from props import wallet_util as wu
     from ref import bip32, ec
     from ref import address as raddr
-    net = case['network']
+    net = net or case['network']
 
     def bad(bucket, msg):
         raise Discrepancy(bucket, msg, case)
@@ -152,7 +152,8 @@ def _run_case_inner(ctx, case):
         wt = case['witness_type']
         try:
             # the account is named explicitly (the lowest one that has keys), whatever the default account is by now
-            ppfx = wu.path_str([HARD + PURPOSE[wt]])[0:2 + len(str(PURPOSE[wt])) + 1]
+            # (keys of the wallet's own network only: purpose and coin type of the path)
+            ppfx = wu.path_str([HARD + PURPOSE[wt], HARD + wu.coin_type(case['network'])]) + '/'
             present = sorted(set(k.account_id for k in w.keys(depth=5) if k.path.startswith(ppfx)))
             acc_wo = present[0] if present else (case.get('account0') or 0)
             xpub = w.wif(is_private=False, account_id=acc_wo)
@@ -168,7 +169,7 @@ def _run_case_inner(ctx, case):
         try:
             orig = {}
             for k in w.keys(account_id=acc_wo, depth=5):
-                if k.path.startswith(wu.path_str([HARD + PURPOSE[wt]])[0:2 + len(str(PURPOSE[wt])) + 1]):
+                if k.path.startswith(ppfx):
                     orig[(k.change, k.address_index)] = k.address
             n_cmp = 0
             for (chg, idx), addr in sorted(orig.items())[:8]:
@@ -208,16 +209,19 @@ def _run_ops(ctx, case, w, uri, master, flags, reopen=True):
     chains = {}     # (wt, account, change) -> set of indices known to exist
     acc0 = case.get('account0') or 0
     chains[(wt0, acc0, 0)] = {0}      # Wallet.create makes the first receiving key (of its default account)
-    accounts = {wt0: {acc0}}
+    accounts = {(wt0, net): {acc0}}      # accounts exist per (witness type, network)
     default = [acc0]
     all_addr = {}
     state = {'w': w}
 
-    def note(k, wt, account, change, must_index=None):
-        addr, idx = _check_key(ctx, case, master, k, wt, account, change, must_index)
-        ch = chains.setdefault((wt, account, change), set())
+    def note(k, wt, account, change, must_index=None, knet=None):
+        addr, idx = _check_key(ctx, case, master, k, wt, account, change, must_index, net=knet)
+        if knet and getattr(k, 'network', None) is not None and k.network.name != knet:
+            raise Discrepancy('key.network', 'key requested for network %s is a key of network %s (%s)' %
+                              (knet, k.network.name, k.path), case)
+        ch = chains.setdefault((wt, account, change, knet or net), set())
         ch.add(idx)
-        accounts.setdefault(wt, set()).add(account)
+        accounts.setdefault((wt, knet or net), set()).add(account)
         if addr in all_addr and all_addr[addr] != k.path:
             raise Discrepancy('address.shared', 'keys %s and %s share address %s' % (all_addr[addr], k.path, addr), case)
         all_addr[addr] = k.path
@@ -234,13 +238,19 @@ def _run_ops(ctx, case, w, uri, master, flags, reopen=True):
             if name in ('new_key', 'new_key_change'):
                 acc = op.get('account', 0)
                 change = 1 if name == 'new_key_change' else op.get('change', 0)
-                before = _chain_indices(w, wt, net, acc, change)
+                # a second network of the same wallet: named explicitly in the request (only together with the
+                # wallet's own witness type: the purpose of the path stays the same)
+                knet = case.get('net2') if (op.get('net2') and not op.get('wt') and case.get('net2')) else None
+                nkw = {'network': knet} if knet else {}
+                before = _chain_indices(w, wt, knet or net, acc, change)
                 if name == 'new_key_change':
-                    k = w.new_key_change(account_id=acc, witness_type=op.get('wt'))
+                    k = w.new_key_change(account_id=acc, witness_type=op.get('wt'), **nkw)
                 else:
-                    k = w.new_key(account_id=acc, change=change, witness_type=op.get('wt'))
-                got = note(k, wt, acc, change)
-                after = _chain_indices(state['w'], wt, net, acc, change)
+                    k = w.new_key(account_id=acc, change=change, witness_type=op.get('wt'), **nkw)
+                got = note(k, wt, acc, change, knet=knet)
+                if knet:
+                    flags.add('second_network')
+                after = _chain_indices(state['w'], wt, knet or net, acc, change)
                 new = sorted(after - before)
                 # the wallet may create keys implicitly (index 0 of a new account); what it must not do is skip
                 # or repeat: the new indices form one run directly above the highest existing index
@@ -263,14 +273,14 @@ def _run_ops(ctx, case, w, uri, master, flags, reopen=True):
                     raise Discrepancy('get_keys.count', 'get_keys(%d) returned indices %r' % (op['count'], idxs), case)
                 flags.add('bulk')
             elif name == 'new_account':
-                known = accounts.get(wt, set())
+                known = accounts.get((wt, net), set())
                 a = w.new_account(witness_type=op.get('wt'))
                 want = (max(known) + 1) if known else 0
                 exp = wu.path_str([HARD + PURPOSE[wt], HARD + wu.coin_type(net), HARD + a.account_id])
                 if a.path != exp or a.account_id != want:
                     raise Discrepancy('account.path', 'new_account returned %r (account %r), expected %r (account %d)' %
                                       (a.path, a.account_id, exp, want), case)
-                accounts.setdefault(wt, set()).add(a.account_id)
+                accounts.setdefault((wt, net), set()).add(a.account_id)
                 flags.add('multi_account')
             elif name == 'observe':
                 # read-only requests: they must not change what the wallet hands out afterwards
@@ -284,7 +294,7 @@ def _run_ops(ctx, case, w, uri, master, flags, reopen=True):
                     w.keys(depth=5)
                 flags.add('observed.' + op['what'])
             elif name == 'set_default_account':
-                known = sorted(accounts.get(wt0, set()))
+                known = sorted(accounts.get((wt0, net), set()))
                 a = known[op['pick'] % len(known)]
                 w.default_account_id = a
                 default[0] = a
@@ -339,6 +349,7 @@ def replay(ctx, case):
 def _strategy(ctx):
     from hypothesis import strategies as st
     from ref import address as raddr
+    from props import wallet_util as wu
 
     @st.composite
     def cases(draw):
@@ -354,10 +365,11 @@ def _strategy(ctx):
         acc = st.sampled_from([0, 0, 0, 1, 2])
         op = st.one_of(
             st.fixed_dictionaries({'op': st.just('new_key'), 'account': acc, 'change': st.sampled_from([0, 0, 1]),
-                                   'wt': other}),
+                                   'wt': other, 'net2': st.sampled_from([False, False, True])}),
             st.fixed_dictionaries({'op': st.just('new_key'), 'account': acc, 'change': st.sampled_from([0, 0, 1]),
                                    'wt': other}),
-            st.fixed_dictionaries({'op': st.just('new_key_change'), 'account': acc, 'wt': other}),
+            st.fixed_dictionaries({'op': st.just('new_key_change'), 'account': acc, 'wt': other,
+                                   'net2': st.sampled_from([False, True])}),
             st.fixed_dictionaries({'op': st.just('get_key'), 'account': acc, 'change': st.sampled_from([0, 1]),
                                    'wt': other}),
             st.fixed_dictionaries({'op': st.just('get_keys'), 'account': acc, 'change': st.sampled_from([0, 1]),
@@ -372,7 +384,10 @@ def _strategy(ctx):
             st.fixed_dictionaries({'op': st.just('observe'),
                                    'what': st.sampled_from(['public_master', 'wif_public', 'account_key', 'keys'])}),
         )
+        others = [x for x in raddr.NETWORK_NAMES if x != net and wu.coin_type(x) != wu.coin_type(net) and
+                  (wt == 'legacy' or not x.startswith('dogecoin'))]
         return {'kind': 'keys', 'network': net, 'witness_type': wt, 'source': source,
+                'net2': draw(st.sampled_from(others)),
                 'account0': draw(st.sampled_from([0, 0, 0, 2, 1])),
                 'ops': draw(st.lists(op, min_size=4, max_size=ctx.scale(12, 25)))}
     return cases()
